@@ -299,6 +299,16 @@ func TestReplay(t *testing.T) {
 	if err != nil {
 		t.Fatalf("cannot load %s: %v", p, err)
 	}
+	if env.Test == "TestC02Squeeze" || env.Test == "TestC07Squeeze" {
+		var c SqueezeCase
+		if _, err := vstat.LoadReplay(p, &c); err != nil {
+			t.Fatalf("cannot decode %s: %v", p, err)
+		}
+		for i := 0; i < 50; i++ {
+			vstat.For(env.Property).Report(t, "TestReplay", c, runSqueeze(c.Pair))
+		}
+		return
+	}
 	if env.Test == "TestC02Hammer" {
 		var c HammerCase
 		if _, err := vstat.LoadReplay(p, &c); err != nil {
